@@ -191,7 +191,11 @@ class Engine(ExprMixin, StmtMixin, CallMixin, BuiltinMixin, EngineBase):
             p.assume(z3.ForAll(bound, z3.Implies(z3.And(guards) if guards else z3.BoolVal(True), z3.And(facts))))
         g = z3.And(guards + facts) if (guards or facts) else z3.BoolVal(True)
         if is_forall:
-            return [(p, VBool(z3.ForAll(bound, z3.Implies(g, body))))]
+            matrix = z3.Implies(g, body)
+            pats = select_triggers(bound, matrix) if self.auto_triggers else None
+            if pats:
+                return [(p, VBool(z3.ForAll(bound, matrix, patterns=pats)))]
+            return [(p, VBool(z3.ForAll(bound, matrix)))]
         return [(p, VBool(z3.Exists(bound, z3.And(g, body))))]
 
     def sp_forall(self, node, p):
@@ -221,6 +225,7 @@ class Engine(ExprMixin, StmtMixin, CallMixin, BuiltinMixin, EngineBase):
         raise Unsupported(f"spec type {ast.unparse(t)}")
 
     type_aliases: dict = {}
+    auto_triggers = True
     opaque_specs: set = set()
     revealed: set = set()
 
@@ -463,6 +468,78 @@ class Engine(ExprMixin, StmtMixin, CallMixin, BuiltinMixin, EngineBase):
         self._run_lemmas()
         for t in self.targets:
             self.verify_target(t)
+
+
+def select_triggers(bound, matrix):
+    """Triggers for a universally quantified specification formula, chosen as Dafny does: field reads / function
+    applications whose arguments are exactly bound variables, excluding those that would start a matching loop (the
+    matrix contains the same symbol applied to a bigger term over the bound variables).  Returns None to let z3 infer."""
+    bids = {b.get_id(): i for i, b in enumerate(bound)}
+    apps = {}      # key (decl/array id) -> list of (term, argtuple)
+
+    def mentions(t):
+        st, seen = [t], set()
+        out = set()
+        while st:
+            y = st.pop()
+            if y.get_id() in seen:
+                continue
+            seen.add(y.get_id())
+            if y.get_id() in bids:
+                out.add(bids[y.get_id()])
+            if z3.is_quantifier(y):
+                continue
+            st.extend(y.children())
+        return out
+
+    st, seen = [matrix], set()
+    while st:
+        y = st.pop()
+        if y.get_id() in seen or z3.is_quantifier(y):
+            continue
+        seen.add(y.get_id())
+        st.extend(y.children())
+        if z3.is_select(y):
+            arr, idx = y.arg(0), [y.arg(i) for i in range(1, y.num_args())]
+            if mentions(arr):
+                continue
+            key = ("sel", arr.get_id())
+        elif z3.is_app(y) and y.num_args() > 0 and y.decl().kind() == z3.Z3_OP_UNINTERPRETED:
+            idx = list(y.children())
+            key = ("app", y.decl().name())
+        else:
+            continue
+        m = set()
+        for a in idx:
+            m |= mentions(a)
+        if m:
+            apps.setdefault(key, []).append((y, idx, m))
+    cands = []
+    for key, lst in apps.items():
+        simple = [(t, m) for (t, idx, m) in lst if all(a.get_id() in bids or not mentions(a) for a in idx)]
+        loopy = any(not all(a.get_id() in bids or not mentions(a) for a in idx) for (t, idx, m) in lst)
+        if simple and not loopy:
+            cands.extend(simple)
+    if not cands:
+        return None
+    allv = set(range(len(bound)))
+    pats = []
+    singles = [t for t, m in cands if m == allv]
+    for t in singles[:6]:
+        pats.append(t)
+    if not pats:
+        # multi-pattern: greedily cover all variables
+        chosen, cov = [], set()
+        for t, m in sorted(cands, key=lambda x: -len(x[1])):
+            if not m <= cov:
+                chosen.append(t)
+                cov |= m
+            if cov == allv:
+                break
+        if cov != allv:
+            return None
+        pats.append(z3.MultiPattern(*chosen) if len(chosen) > 1 else chosen[0])
+    return pats
 
 
 def _own_statements(fnode):
